@@ -111,3 +111,24 @@ pub const THIS_PROGRAMS: &[&str] = &[
     "a := {\"id\": \"A\", \"go\": fn (cb) {\ncb()\nreturn this.id\n}}\nb := {\"id\": \"B\", \"hello\": fn () {\nreturn this.id\n}}\nprint(a.go(fn () {\nprint(b.hello())\n}))\n",
     "b := {\"id\": \"B\", \"who\": fn () {\nreturn this.id\n}}\nfn helper() {\nreturn b.who()\n}\na := {\"id\": \"A\", \"go\": fn () {\nx := helper()\nreturn [x, this.id]\n}}\nprint(a.go())\n",
 ];
+
+/// assignments whose targets, indices or bounds read or write the very container being assigned
+/// from / to (shared by C02, C05, C11, C13)
+pub const SELF_TARGET_PROGRAMS: &[&str] = &[
+    "xs := [2, 1, 0, 3]\nxs[1 : xs[0]] = [5]\nprint(xs)\n",
+    "xs := [2, 1, 0, 3]\nxs[xs[2] : xs[0]] = [5, 6]\nprint(xs)\n",
+    "xs := [2, 1, 0, 3]\nys := xs\nxs[ys[2] : ys[1] + 1] = [ys[3], ys[0]]\nprint(xs)\n",
+    "xs := [1, 2, 3]\n[xs[2], xs[0], xs[1]] = xs\nprint(xs)\n",
+    "xs := [1, 2, 3]\n[_, xs[0], ..t] = xs\nprint(xs)\nprint(t)\n",
+    "o := {\"a\": 1, \"b\": 2}\n{\"a\": o.b, \"b\": o.a} = o\nprint(o)\n",
+    "acct := {\"balance\": 5, \"pending\": 7}\nview := acct\n{\"pending\": view.balance} = acct\nprint(acct)\n",
+    "o := {\"n\": 1, \"v\": 9}\nxs := [0, 0]\n{\"v\": xs[o.n]} = o\nprint(xs)\n",
+    "o := {\"n\": 0, \"v\": 9, \"l\": [1, 2]}\n{\"v\": o.l[o.n]} = o\nprint(o)\n",
+    "o := {\"k\": 1}\no.self = o\n{\"self\": {\"k\": o.j}} = o\nprint(o.j)\n",
+    "a := {\"x\": 1}\nb := {\"x\": 2}\n[a.x, b.x] = [b.x, a.x]\nprint([a, b])\n",
+    "x := 0\no := {\"x\": 5}\n[x, o.x] = [1, 2]\nprint([x, o])\n",
+    "src := {\"p\": 1, \"q\": 2}\na := {\"k\": 0}\nb := {\"k\": 0}\n{\"p\": a.k, \"q\": b.k} = src\nprint([a, b])\n",
+    "a := {\"x\": 1}\n[a.x, a[\"x\"]] = [3, 4]\nprint(a)\n",
+    "xs := [[1], [2]]\n[xs[1][0], xs[0][0]] = [xs[0][0], xs[1][0]]\nprint(xs)\n",
+    "o := {\"m\": {\"x\": 1}}\n[o.m.x, o.n] = [2, 3]\nprint(o)\n",
+];
